@@ -1,0 +1,10 @@
+//go:build verif
+
+package uint64set
+
+// Contracts for /verif (gvc). Comment-only file; see /verif/DESIGN.md §4 (T-set).
+// The bucketed bitmap implementation is trusted: read-only membership test.
+
+//@ func (*Set).Has
+//@   trusted read-only membership test of the bucketed bitmap
+//@   assigns nothing
